@@ -9,7 +9,7 @@ def jobs(tier):
     q = tier == "quick"
     return [
         Job("c09_loss", "flt-asan", "enumerate", workers=W, enum_stride=64 if q else 1, maxtime=40 if q else 1500, fastsources=FAST, case_timeout=300, refs=("ref-flt",)),
-        Job("c09_loss", "flt-asan", "random", workers=W, cases=30 if q else 500, maxtime=40 if q else 900, fastsources=FAST, case_timeout=300, refs=("ref-flt",)),
+        Job("c09_loss", "flt-asan", "random", workers=W, cases=45 if q else 500, maxtime=50 if q else 900, fastsources=FAST, case_timeout=300, refs=("ref-flt",)),
     ]
 
 
